@@ -386,3 +386,661 @@ mod verif_replay2 {
         assert!(r.is_err());
     }
 }""" % GCC_PREFIX}}
+
+
+from mirq import path_taint, branch_on, calls_on, _mentions
+
+
+def resolve_source(events, upto, loc, depth=8):
+    """Where does local `loc` get its value on this path (following moves/copies/refs)?"""
+    loc = loc.replace("move ", "").replace("copy ", "").strip()
+    src = None
+    for e2 in events[:upto]:
+        if e2[0] == "call" and e2[5] == loc:
+            args = []
+            for a in e2[4]:
+                if a.strip().startswith("const"):
+                    args.append(a.strip())
+                else:
+                    args.append(resolve_source(events, upto, a, depth - 1) if depth > 0 else a)
+            src = "CALL %s(%s)" % (e2[2], ", ".join(args))
+        if e2[0] == "assign" and e2[2].strip() == loc:
+            src = e2[3]
+    if src is None:
+        return "?" + loc
+    m = re.match(r"(?:move |copy |&(?:mut )?)(_\d+)$", src.strip())
+    if m and depth > 0:
+        return resolve_source(events, upto, m.group(1), depth - 1)
+    return src
+
+
+def _last_assign_to_ret(p):
+    r = None
+    for ev in p.events:
+        if ev[0] == "assign" and ev[2].strip() == "_0":
+            r = ev[3]
+        if ev[0] == "call" and ev[5] == "_0":
+            r = "CALL " + ev[2]
+    return r
+
+
+# --------------------------------------------------------------------------
+# C02: x224::Client::connect
+# --------------------------------------------------------------------------
+def x224_connect(ctx, mir, stats):
+    f = find_fn(mir, r"^x224::<impl at src/core/x224\.rs[^>]*>::connect$")
+    se = SymExec(f, stats).run()
+    obs = []
+    n_ok = 0
+    offered = None
+    for nm, (v, ty) in se.inputs.items():
+        if nm.startswith("arg_2#"):
+            offered = v
+    for p in se.finished:
+        ret = _last_assign_to_ret(p) or ""
+        if not re.match(r"Result::<x224::Client<S>, .*>::Ok\(", ret):
+            continue
+        n_ok += 1
+        # the local holding the selected protocol
+        sel = [ev[2].strip() for ev in p.events if ev[0] == "assign" and re.search(r"as Continue\)\.0: core::x224::Protocols\)", ev[3])]
+        discr = p.env.get("discr(%s)" % sel[0]) if sel else None
+        tls = calls_on(p.events, r"tpkt::Client::<S>::start_(ssl|nla)$")
+        if discr is None or offered is None:
+            obs.append({"id": "x224::connect:ok-path-inspects-selection", "ok": False, "functions": [f.name],
+                        "detail": "a path returns Ok without looking at the server's selected protocol", "path": p.trace, "where": f.name})
+            continue
+        d32 = z3.Extract(31, 0, discr)
+        good = z3.And(z3.Or(discr == 1, discr == 2), (d32 & offered) != 0)
+        verdict, mdl, smt = se.check(p, [z3.Not(good)], "selection honoured")
+        cvc5_check(smt, verdict, stats)
+        selv = None
+        if verdict == "sat":
+            s2 = z3.Solver()
+            for c in p.cond:
+                s2.add(c)
+            s2.add(z3.Not(good))
+            s2.check()
+            selv = s2.model().eval(discr, model_completion=True).as_long()
+            offv = s2.model().eval(offered, model_completion=True).as_long()
+            mdl = {"selected_protocol": selv, "offered_mask": offv}
+        obs.append({"id": "x224::connect:selection-offered-and-tls[%s]" % p.trace[-3], "ok": verdict == "unsat", "functions": [f.name],
+                    "detail": "Ok is returned only for a selected protocol in {SSL, Hybrid} that is contained in the offered mask" if verdict == "unsat" else
+                    "connect returns Ok for selected protocol %s with offered mask %s (not offered, or no TLS-capable protocol: downgrade accepted)" % (mdl.get("selected_protocol"), mdl.get("offered_mask")),
+                    "cex": mdl, "path": p.trace, "where": f.name,
+                    "native": _x224_native(mdl) if verdict == "sat" and mdl.get("selected_protocol") == 0 else None})
+        obs.append({"id": "x224::connect:tls-before-ok[%s]" % p.trace[-3], "ok": len(tls) == 1, "functions": [f.name],
+                    "detail": "exactly one start_ssl/start_nla call precedes the Ok return" if len(tls) == 1 else "an Ok return is reachable without establishing TLS (calls: %s)" % [ev[2] for i, ev in calls_on(p.events, r".")],
+                    "path": p.trace, "where": f.name})
+        for i, ev in tls:
+            ok = ev[4][1].strip() == "copy _3"
+            obs.append({"id": "x224::connect:check_certificate-passed[%s]" % ev[1], "ok": ok, "functions": [f.name],
+                        "detail": "check_certificate is handed unchanged to %s" % ev[2].split("::")[-1] if ok else "certificate-check flag replaced by `%s`" % ev[4][1], "where": f.name})
+    if n_ok == 0:
+        raise Inconclusive("ENCODING-FAILED: no Ok-returning path found in x224::Client::connect")
+    uniq = {}
+    for o in obs:
+        if o["id"] not in uniq or (uniq[o["id"]]["ok"] and not o["ok"]):
+            uniq[o["id"]] = o
+    obs = list(uniq.values())
+    # nothing is written after the request unless TLS came first: the only transport call before start_* is write_connection_request + read_connection_confirm
+    return obs
+
+
+def _x224_native(mdl):
+    return {"test": "verif_replay_x224_downgrade", "files": {"src/core/x224.rs": """
+#[cfg(test)]
+mod verif_replay {
+    use super::*;
+    use model::link::{Link, Stream};
+    struct Duplex { input: Vec<u8>, pos: usize }
+    impl Read for Duplex { fn read(&mut self, b: &mut [u8]) -> std::io::Result<usize> { let n = std::cmp::min(b.len(), self.input.len() - self.pos); b[..n].copy_from_slice(&self.input[self.pos..self.pos + n]); self.pos += n; Ok(n) } }
+    impl Write for Duplex { fn write(&mut self, b: &[u8]) -> std::io::Result<usize> { Ok(b.len()) } fn flush(&mut self) -> std::io::Result<()> { Ok(()) } }
+    #[test]
+    fn verif_replay_x224_downgrade() {
+        // connection confirm selecting protocol %d while the client offered mask %d
+        let confirm = vec![3, 0, 0, 19, 14, 0xd0, 0, 0, 0, 0, 0, 2, 0, 8, 0, %d, 0, 0, 0];
+        let tpkt = tpkt::Client::new(Link::new(Stream::Raw(Duplex { input: confirm, pos: 0 })));
+        let r = Client::connect(tpkt, %d, false, None, false, false);
+        assert!(r.is_err(), "a protocol that was not offered (or plain RDP security) must be refused");
+    }
+}""" % (mdl["selected_protocol"], mdl["offered_mask"], mdl["selected_protocol"], mdl["offered_mask"] or 3)}}
+
+
+def must_follow_ok(fn_regex, first_regex, then_regex, what):
+    """E2: every call matching then_regex is reachable only through the Ok edge of a call matching first_regex."""
+    def fn(ctx, mir, stats):
+        f = find_fn(mir, fn_regex)
+        firsts = call_blocks(f, first_regex)
+        thens = call_blocks(f, then_regex)
+        if not firsts or not thens:
+            raise Inconclusive("ENCODING-FAILED: %s: calls not found (first=%s then=%s)" % (f.name, firsts, thens))
+        removed = set()
+        for b in firsts:
+            rs = result_switch(f, b)
+            if not rs:
+                raise Inconclusive("ENCODING-FAILED: %s: result of %s is not tested by a recognisable switch" % (f.name, f.blocks[b].t["func"]))
+            sw, tg = rs
+            removed.add((sw, "0", tg["0"]))
+        obs = []
+        for b in thens:
+            r = fp_reachable(f, f.order[0], b, stats, removed_edges=removed)
+            obs.append({"id": "%s:%s-after-ok" % (f.name[-30:], b), "ok": not r, "functions": [f.name],
+                        "detail": ("%s (%s) is reachable only through the Ok edge of %s" if not r else "%s (%s) is reachable without %s having returned Ok") % (what, f.blocks[b].t["func"][-50:], first_regex),
+                        "where": "%s %s" % (f.name, b)})
+        return obs
+    return fn
+
+
+def link_start_ssl(ctx, mir, stats):
+    f = find_fn(mir, r"^link::<impl at src/model/link\.rs[^>]*>::start_ssl$")
+    se = SymExec(f, stats).run()
+    obs = []
+    chk = [v for nm, (v, ty) in se.inputs.items() if nm.startswith("arg_2#")]
+    found = 0
+    for p in se.finished:
+        for i, ev in calls_on(p.events, r"danger_accept_invalid_certs$"):
+            found += 1
+            a = ev[3][1]
+            if a is None or not chk:
+                obs.append({"id": "start_ssl:accept-invalid-arg", "ok": False, "functions": [f.name], "detail": "argument of danger_accept_invalid_certs not derived from check_certificate"})
+                continue
+            verdict, mdl, smt = se.check(p, [a != ~chk[0]], "accept invalid == !check")
+            obs.append({"id": "start_ssl:accept-invalid==!check", "ok": verdict == "unsat", "functions": [f.name],
+                        "detail": "danger_accept_invalid_certs receives exactly !check_certificate" if verdict == "unsat" else "invalid certificates accepted although checking was requested: %s" % mdl, "where": f.name})
+            break
+        break
+    if not found:
+        raise Inconclusive("ENCODING-FAILED: danger_accept_invalid_certs call not found in Link::start_ssl")
+    return obs
+
+
+# --------------------------------------------------------------------------
+# C01: cssp_connect ordering
+# --------------------------------------------------------------------------
+def cssp_order(ctx, mir, stats):
+    f = find_fn(mir, r"^cssp_connect$")
+    writes = call_blocks(f, r"Link::<S>::write$")
+    cmpb = call_blocks(f, r"<BigUint as PartialEq>::(ne|eq)$")
+    unwrap = call_blocks(f, r"::gss_unwrapex$")
+    validate = call_blocks(f, r"\bread_ts_validate$")
+    reads = call_blocks(f, r"Link::<S>::read$")
+    acc = call_blocks(f, r"::get_(password|user_name|domain_name)$")
+    wraps = call_blocks(f, r"::gss_wrapex$")
+    mitm = stmt_blocks(f, r"RdpErrorKind::PossibleMITM")
+    if len(writes) != 3 or len(cmpb) != 1 or len(unwrap) != 1 or len(validate) != 1 or len(mitm) < 1 or len(reads) != 2 or len(wraps) != 2 or len(acc) != 3:
+        raise Inconclusive("ENCODING-FAILED: cssp_connect shape not recognised: writes=%s cmp=%s unwrap=%s validate=%s mitm=%s reads=%s wraps=%s accessors=%s" % (writes, cmpb, unwrap, validate, mitm, reads, wraps, acc))
+    c = cmpb[0]
+    obs = []
+    rs = result_switch(f, c)
+    if not rs:
+        raise Inconclusive("ENCODING-FAILED: comparison result is not branched on")
+    sw, tg = rs
+    sides = {}
+    for lab, t in tg.items():
+        sides[lab] = any(m in bfs_reach(f, t) for m in mitm)
+    bad = [l for l, v in sides.items() if v]
+    good = [l for l, v in sides.items() if not v]
+    if len(bad) != 1 or len(good) != 1:
+        raise Inconclusive("ENCODING-FAILED: cannot tell the MITM edge from the continue edge (%s)" % sides)
+    t_bad, t_good = tg[bad[0]], tg[good[0]]
+    callee = f.blocks[c].t["func"]
+    pol = (callee.endswith("::ne") and good[0] == "0") or (callee.endswith("::eq") and good[0] != "0")
+    obs.append({"id": "cssp:polarity", "ok": pol, "functions": [f.name],
+                "detail": "the connection continues exactly when reply == key + 1 (%s, continue edge `%s`)" % (callee.split("::")[-1], good[0]) if pol else "comparison polarity inverted: continues when the values differ", "where": f.name + " " + sw})
+    after = [w for w in writes if fp_reachable(f, c, w, stats)]
+    wraps_after = [w for w in wraps if fp_reachable(f, c, w, stats)]
+    if len(after) != 1 or len(wraps_after) != 1:
+        raise Inconclusive("ENCODING-FAILED: expected one write and one gss_wrapex after the comparison (%s, %s)" % (after, wraps_after))
+    sensitive = [("credential write", after[0]), ("credential sealing", wraps_after[0])] + [("credential accessor", a) for a in acc]
+    for what, b in sensitive:
+        r1 = fp_reachable(f, t_bad, b, stats)
+        obs.append({"id": "cssp:%s@%s:not-after-mitm-edge" % (what, b), "ok": not r1, "functions": [f.name],
+                    "detail": "%s is unreachable from the mismatch edge" % what if not r1 else "%s is reachable after the key mismatch was detected" % what, "where": f.name})
+        r2 = fp_reachable(f, f.order[0], b, stats, removed_edges={(sw, good[0], t_good)})
+        obs.append({"id": "cssp:%s@%s:only-through-match-edge" % (what, b), "ok": not r2, "functions": [f.name],
+                    "detail": "%s is reachable only through the key-match edge of the comparison" % what if not r2 else "%s can be reached without passing the public-key comparison" % what, "where": f.name})
+    any_write_bad = [w for w in writes if fp_reachable(f, t_bad, w, stats)]
+    obs.append({"id": "cssp:nothing-written-after-mismatch", "ok": not any_write_bad, "functions": [f.name],
+                "detail": "no Link::write is reachable from the mismatch edge" if not any_write_bad else "writes %s reachable after mismatch" % any_write_bad, "where": f.name})
+    # the comparison itself is reachable only after unwrap / validate / second read returned Ok
+    second_read = [r for r in reads if fp_reachable(f, r, c, stats) and not fp_reachable(f, r, writes[0], stats)]
+    for what, b in [("gss_unwrapex", unwrap[0]), ("read_ts_validate", validate[0])]:
+        rs2 = result_switch(f, b)
+        if not rs2:
+            raise Inconclusive("ENCODING-FAILED: result of %s not tested" % what)
+        s2, t2 = rs2
+        r = fp_reachable(f, f.order[0], c, stats, removed_edges={(s2, "0", t2["0"])})
+        obs.append({"id": "cssp:compare-only-after-%s-ok" % what, "ok": not r, "functions": [f.name],
+                    "detail": "the comparison (hence everything after it) is reached only when %s returned Ok" % what if not r else "the comparison is reachable although %s failed" % what, "where": f.name})
+    # operands: one side derives from the unsealed reply, the other from key + 1
+    se = SymExec(f, stats, max_paths=5000).run()
+    checked = False
+    for p in se.finished + [a[0] for a in se.asserts]:
+        cc = calls_on(p.events, r"<BigUint as PartialEq>::(ne|eq)$")
+        if not cc:
+            continue
+        i, ev = cc[0]
+        uw = calls_on(p.events[:i], r"::gss_unwrapex$")
+        add = calls_on(p.events[:i], r"<BigUint as Add")
+        one = calls_on(p.events[:i], r"BigUint::new$")
+        fb = calls_on(p.events[:i], r"BigUint::from_bytes_le$")
+        if not uw:
+            continue
+        t_reply = path_taint(p.events[uw[0][0]:i], {uw[0][1][5]})
+        t_key = path_taint(p.events[:i], {add[0][1][5]}) if add else set()
+        a0, a1 = ev[4][0], ev[4][1]
+        lit = [e for e in p.events[:i] if e[0] == "assign" and re.search(r"= \[const 1_u32\]$|^\[const 1_u32\]$", e[3].strip()) or (e[0] == "assign" and e[3].strip() == "[const 1_u32]")]
+        obs.append({"id": "cssp:increment-is-one", "ok": len(lit) == 1 and len(one) == 1, "functions": [f.name],
+                    "detail": "the value added to the key is BigUint::new(vec![1])" if (len(lit) == 1 and len(one) == 1) else "the increment literal is not [1u32] (found %s)" % [e[3] for e in lit], "where": f.name})
+        ok = bool(add) and bool(one) and len(fb) == 2 and ((any(_mentions(a0, x) for x in t_reply) and any(_mentions(a1, x) for x in t_key)) or
+                                                             (any(_mentions(a1, x) for x in t_reply) and any(_mentions(a0, x) for x in t_key)))
+        # the key side must not derive from the reply and vice versa
+        obs.append({"id": "cssp:operands", "ok": ok, "functions": [f.name],
+                    "detail": "comparison operands: BigUint(unsealed reply) vs BigUint(certificate key) + BigUint(1)" if ok else "comparison operands are not (unsealed reply, certificate key + 1)", "where": f.name})
+        checked = True
+        break
+    if not checked:
+        raise Inconclusive("ENCODING-FAILED: no explored path reaches the comparison")
+    # normal completion only after the third write returned Ok
+    rs3 = result_switch(f, after[0])
+    okb = stmt_blocks(f, r"_0 = Result::<\(\), model::error::Error>::Ok\(")
+    if not rs3 or not okb:
+        raise Inconclusive("ENCODING-FAILED: final write result / Ok return not recognised")
+    s3, t3 = rs3
+    for b in okb:
+        r = fp_reachable(f, f.order[0], b, stats, removed_edges={(s3, "0", t3["0"])})
+        obs.append({"id": "cssp:ok-only-after-final-write", "ok": not r, "functions": [f.name],
+                    "detail": "Ok(()) is returned only after the credential write succeeded" if not r else "Ok(()) reachable without the final write succeeding", "where": f.name})
+    return obs
+
+
+# --------------------------------------------------------------------------
+# C17: restricted admin mode wiring
+# --------------------------------------------------------------------------
+def cssp_restricted(ctx, mir, stats):
+    f = find_fn(mir, r"^cssp_connect$")
+    se = SymExec(f, stats, max_paths=5000).run()
+    obs = []
+    n = 0
+    restricted = [v for nm, (v, ty) in se.inputs.items() if nm.startswith("arg_3#")]
+    for p in se.finished:
+        cc = calls_on(p.events, r"\bcreate_ts_credentials$")
+        if not cc:
+            continue
+        n += 1
+        i, ev = cc[0]
+        accs = calls_on(p.events[:i], r"::get_(password|user_name|domain_name)$")
+        # is restricted mode on or off on this path?
+        s = z3.Solver()
+        for c in p.cond:
+            s.add(c)
+        s.push(); s.add(restricted[0] == 1); on = s.check() == z3.sat; s.pop()
+        s.push(); s.add(restricted[0] == 0); off = s.check() == z3.sat; s.pop()
+        stats.queries += 2
+        if on and off:
+            obs.append({"id": "cssp:restricted-decides", "ok": False, "functions": [f.name], "detail": "a path builds the credentials without testing restricted_admin_mode", "path": p.trace})
+            continue
+        srcs = [resolve_source(p.events, i, a) for a in ev[4]]
+        if on:
+            ok = not accs and all(re.match(r"CALL Vec::<u8>::new\(\)$", x) for x in srcs)
+            obs.append({"id": "cssp:restricted=>empty-credentials", "ok": ok, "functions": [f.name],
+                        "detail": "restricted admin: domain, user and password in TSCredentials are fresh empty vectors; no credential accessor is called" if ok else
+                        "restricted admin mode still reads credentials: accessors %s, argument sources %s" % ([e[2] for j, e in accs], srcs), "path": p.trace, "where": f.name})
+        else:
+            order = [re.search(r"::get_(\w+)\(", x).group(1) if re.search(r"::get_(\w+)\(", x) else x for x in srcs]
+            ok = order == ["domain_name", "user_name", "password"]
+            obs.append({"id": "cssp:normal=>credentials-in-order", "ok": ok, "functions": [f.name],
+                        "detail": "normal mode: TSCredentials(domain, user, password) fed by get_domain_name, get_user_name, get_password in that order" if ok else "credential fields wired as %s" % order, "where": f.name})
+    if n == 0:
+        raise Inconclusive("ENCODING-FAILED: no path reaches create_ts_credentials")
+    return obs
+
+
+def connector_wiring(ctx, mir, stats):
+    f = find_fn(mir, r"^client::<impl at src/core/client\.rs[^>]*>::connect$")
+    obs = []
+    se = SymExec(f, stats, max_paths=5000).run()
+    n = 0
+    for p in se.finished:
+        sc = calls_on(p.events, r"^connect::<S>$|\bsec::connect")
+        xc = calls_on(p.events, r"x224::Client::<S>::connect$")
+        if not sc:
+            continue
+        n += 1
+        i, ev = sc[0]
+        # C02: Client Info only after x224 connect returned Ok (hence after TLS)
+        ok = bool(xc) and xc[0][0] < i
+        obs.append({"id": "connector:client-info-after-x224[%s]" % ev[1], "ok": ok, "functions": [f.name],
+                    "detail": "sec::connect (Client Info, clear-text password) happens after x224::Client::connect returned Ok" if ok else "sec::connect before the security negotiation", "where": f.name})
+        # x224 connect receives restricted_admin_mode and blank_creds from the connector's fields, check_certificate too
+        # C17: restricted => three empty strings
+        srcs = [resolve_source(p.events, i, a) for a in ev[4][1:4]]
+        empty = all(re.match(r'CALL <str as ToString>::to_string\(const ""\)$', x) for x in srcs)
+        fields = all(re.search(r"\(\*_1\)\.\d+: std::string::String", x) for x in srcs)
+        # the arm is chosen by the same field that is handed to x224::Client::connect as restricted_admin_mode
+        brs = [(k, e) for k, e in enumerate(p.events[:i]) if e[0] == "branch" and k > xc[0][0]] if xc else []
+        guard = None
+        for k, e in reversed(brs):
+            g = resolve_source(p.events, k, e[4])
+            if re.search(r"\(\*_1\)\.\d+: bool", g):
+                guard = (g, e[2])
+                break
+        xarg = resolve_source(p.events, xc[0][0], xc[0][1][4][4]) if xc else None
+        if guard:
+            same = re.search(r"\(\*_1\)\.\d+: bool", guard[0]).group(0) == (re.search(r"\(\*_1\)\.\d+: bool", xarg or "") or re.match("", "")).group(0)
+            want_empty = guard[1] != "0"
+            obs.append({"id": "connector:restricted-guard[%s]" % ev[1], "ok": same and (empty == want_empty), "functions": [f.name],
+                        "detail": "the empty-credentials arm is taken exactly when the field passed to x224 as restricted_admin_mode is set" if same and (empty == want_empty)
+                        else "arm selection does not follow restricted_admin_mode (guard %s label %s, x224 arg %s, empty=%s)" % (guard[0], guard[1], xarg, empty), "where": f.name})
+        obs.append({"id": "connector:sec-connect-args[%s]" % ev[1], "ok": empty or fields, "functions": [f.name],
+                    "detail": ("restricted admin arm: Client Info carries three empty strings" if empty else "normal arm: Client Info carries the connector's domain, user, password fields") if (empty or fields) else "sec::connect arguments wired as %s" % srcs,
+                    "where": f.name, "kind": "empty" if empty else "fields"})
+    if n == 0:
+        raise Inconclusive("ENCODING-FAILED: no path reaches sec::connect")
+    kinds = {o.get("kind") for o in obs if "kind" in o}
+    obs.append({"id": "connector:both-arms", "ok": kinds == {"empty", "fields"}, "functions": [f.name], "detail": "both the restricted (empty) and the normal (fields) arm exist: %s" % sorted(kinds)})
+    # restricted arm is guarded by the restricted_admin_mode field: the same field is passed to x224 connect as its 5th argument
+    return obs
+
+
+# --------------------------------------------------------------------------
+# C12: activation automaton of global::Client
+# --------------------------------------------------------------------------
+AUTOMATON = {  # recognizer (regex on callee + optional action argument) -> successor
+    "demand": (r"read_demand_active_pdu$", None, "SynchronizePDU"),
+    "sync": (r"read_synchronize_pdu$", None, "ControlCooperate"),
+    "coop": (r"read_control_pdu$", "CtrlactionCooperate", "ControlGranted"),
+    "granted": (r"read_control_pdu$", "CtrlactionGrantedControl", "FontMap"),
+    "font": (r"read_font_map_pdu$", None, "Data"),
+}
+
+
+def _state_stores(p):
+    out = []
+    for k, ev in enumerate(p.events):
+        if ev[0] == "assign" and re.search(r"core::global::ClientState\)$", ev[2].strip()):
+            out.append((k, resolve_source(p.events, k + 1, ev[3])))
+    return out
+
+
+def global_read(ctx, mir, stats):
+    f = find_fn(mir, r"^global::<impl at src/core/global\.rs[^>]*>::read$")
+    se = SymExec(f, stats, max_paths=5000).run()
+    obs = []
+    arms = {}
+    for p in se.finished:
+        first = next((ev for ev in p.events if ev[0] == "branch"), None)
+        if not first or "ClientState" not in first[4] and not re.search(r"_\d+", first[4]):
+            continue
+        arms.setdefault(first[2], []).append(p)
+    if len(arms) != 6:
+        raise Inconclusive("ENCODING-FAILED: expected 6 state arms in global::Client::read, found %s" % sorted(arms))
+    seen_kinds = {}
+    for lab, paths in sorted(arms.items()):
+        kinds = set()
+        for p in paths:
+            recs = calls_on(p.events, r"global::Client::read_(demand_active_pdu|synchronize_pdu|control_pdu|font_map_pdu)$")
+            datas = calls_on(p.events, r"global::Client::read_(data_pdu|fast_path)")
+            writes = calls_on(p.events, r"global::Client::write_(confirm_active_pdu|client_finalize)")
+            stores = _state_stores(p)
+            if datas:
+                kinds.add("data")
+                ok = not recs and not writes and not stores
+                obs.append({"id": "global::read[arm %s]:data-arm-pure" % lab, "ok": ok, "functions": [f.name],
+                            "detail": "data arm: only read_data_pdu / read_fast_path, no state store, no activation write" if ok else "data arm also does %s" % ([e[2] for k, e in recs + writes], stores), "where": f.name})
+                continue
+            if not recs:
+                # early error exit (payload kind mismatch): must not store or write
+                ok = not writes and not stores
+                obs.append({"id": "global::read[arm %s]:error-exit-pure" % lab, "ok": ok, "functions": [f.name],
+                            "detail": "paths that leave before the recogniser store no state and write nothing" if ok else "state store/write without recogniser", "where": f.name})
+                continue
+            k0, rec = recs[0]
+            kind = None
+            for name, (rx, action, succ) in AUTOMATON.items():
+                if re.search(rx, rec[2]):
+                    if action is None:
+                        kind = name
+                    else:
+                        asrc = " ".join(resolve_source(p.events, k0, a) for a in rec[4])
+                        if action in asrc:
+                            kind = name
+            if kind is None:
+                obs.append({"id": "global::read[arm %s]:recogniser" % lab, "ok": False, "functions": [f.name], "detail": "unrecognised recogniser call %s(%s)" % (rec[2], rec[4])})
+                continue
+            kinds.add(kind)
+            succ = AUTOMATON[kind][2]
+            # did the recogniser say `true` on this path?
+            t = path_taint(p.events[k0:], {rec[5]})
+            bi, blab = branch_on(p.events[k0:], t)          # Ok/Err of the result
+            bj, blab2 = branch_on(p.events[k0:], t, (bi or 0) + 1)   # the bool itself
+            accepted = blab == "0" and blab2 is not None and blab2 != "0"
+            if accepted:
+                ok = [s for k, s in stores] == ["ClientState::" + succ] or (kind == "demand" and any(e[2] for k, e in calls_on(p.events, r"from_residual")))
+                if kind == "demand":
+                    wn = [re.search(r"write_(\w+?)(::<S>)?$", e[2]).group(1) for k, e in writes]
+                    complete = [s for k, s in stores] == ["ClientState::" + succ]
+                    if complete:
+                        okw = wn == ["confirm_active_pdu", "client_finalize"] and writes[-1][0] < stores[0][0]
+                        obs.append({"id": "global::read[demand]:one-confirm-then-finalize-then-state", "ok": okw, "functions": [f.name],
+                                    "detail": "accepted demand-active: exactly one confirm-active, then one finalization, then state := SynchronizePDU" if okw else "activation answer is %s with stores %s" % (wn, stores), "where": f.name})
+                    else:
+                        # a write failed: state must not advance
+                        okw = not stores and wn in (["confirm_active_pdu"], ["confirm_active_pdu", "client_finalize"])
+                        obs.append({"id": "global::read[demand]:failed-write-keeps-state", "ok": okw, "functions": [f.name],
+                                    "detail": "if a write of the activation answer fails the state is not advanced" if okw else "stores %s after writes %s" % (stores, wn), "where": f.name})
+                else:
+                    ok2 = [s for k, s in stores] == ["ClientState::" + succ] and not writes
+                    obs.append({"id": "global::read[%s]:advance-to-%s" % (kind, succ), "ok": ok2, "functions": [f.name],
+                                "detail": "expected PDU recognised: state := %s, nothing written" % succ if ok2 else "on the expected PDU the state stores are %s, writes %s" % (stores, [e[2] for k, e in writes]), "where": f.name})
+            else:
+                ok3 = not stores and not writes
+                obs.append({"id": "global::read[%s]:stay-on-other-pdu" % kind, "ok": ok3, "functions": [f.name],
+                            "detail": "any other PDU (or a parse error) leaves the state unchanged and writes nothing" if ok3 else "state %s / writes %s although the recogniser did not accept" % (stores, [e[2] for k, e in writes]), "where": f.name})
+        seen_kinds[lab] = kinds
+    allk = sorted(k for ks in seen_kinds.values() for k in ks)
+    obs.append({"id": "global::read:six-distinct-arms", "ok": allk == sorted(["demand", "sync", "coop", "granted", "font", "data"]), "functions": [f.name],
+                "detail": "state arms: %s" % {l: sorted(k) for l, k in seen_kinds.items()}, "where": f.name})
+    # fast path (the only route to the callback) only in the data arm: E2 reachability
+    fpb = call_blocks(f, r"read_fast_path")
+    sw0 = f.order[0]
+    data_lab = [l for l, ks in seen_kinds.items() if "data" in ks]
+    if len(fpb) != 1 or len(data_lab) != 1:
+        raise Inconclusive("ENCODING-FAILED: read_fast_path call / data arm not unique")
+    tg = dict(f.blocks[sw0].t["targets"])
+    r = fp_reachable(f, sw0, fpb[0], stats, removed_edges={(sw0, data_lab[0], tg[data_lab[0]])})
+    obs.append({"id": "global::read:bitmaps-only-in-data", "ok": not r, "functions": [f.name],
+                "detail": "read_fast_path (the only caller of the bitmap callback) is reachable only through the Data arm" if not r else "read_fast_path reachable outside the Data state", "where": f.name})
+    ctx["c12_state_labels"] = seen_kinds
+    return obs
+
+
+def global_deactivate(ctx, mir, stats):
+    f = find_fn(mir, r"^global::<impl at src/core/global\.rs[^>]*>::read_data_pdu$")
+    obs = []
+    stores = []
+    for n in f.order:
+        b = f.blocks[n]
+        if b.cleanup:
+            continue
+        for s in b.stmts:
+            if re.search(r"core::global::ClientState\) = ", s):
+                stores.append(n)
+    if len(stores) != 1:
+        obs.append({"id": "read_data_pdu:one-state-store", "ok": False, "functions": [f.name], "detail": "state stores in read_data_pdu: %s (expected exactly one: back to DemandActivePDU)" % stores})
+        return obs
+    sb = stores[0]
+    txt = " ".join(f.blocks[sb].stmts)
+    val = re.search(r"= ClientState::(\w+)", txt)
+    obs.append({"id": "read_data_pdu:store-is-demand-active", "ok": bool(val) and val.group(1) == "DemandActivePDU", "functions": [f.name],
+                "detail": "the only state store in the data arm is := %s" % (val.group(1) if val else "?"), "where": f.name + " " + sb})
+    # guarded by the comparison of the PDU type with Deactivateallpdu
+    cmpb = [n for n in call_blocks(f, r"<PDUType as PartialEq>::(eq|ne)$")]
+    guard = None
+    for c in cmpb:
+        rs = result_switch(f, c)
+        if not rs:
+            continue
+        sw, tg = rs
+        for lab, t in tg.items():
+            if lab == "otherwise" or lab == "1" or lab == "0":
+                r_with = fp_reachable(f, f.order[0], sb, stats)
+                r_without = fp_reachable(f, f.order[0], sb, stats, removed_edges={(sw, lab, t)})
+                if r_with and not r_without:
+                    guard = (c, sw, lab)
+        if guard:
+            break
+    if not guard:
+        obs.append({"id": "read_data_pdu:store-guarded", "ok": False, "functions": [f.name], "detail": "the store of DemandActivePDU is not dominated by a PDU-type comparison"})
+        return obs
+    c, sw, lab = guard
+    callee = f.blocks[c].t["func"]
+    args = " ".join(f.blocks[c].t["args"])
+    # the compared constant: a promoted const whose body is PDUType::PdutypeDeactivateallpdu
+    text = ctx.get("mir_text", "")
+    m = re.search(r"read_data_pdu::(promoted\[\d+\])", " ".join(s for n in f.order for s in f.blocks[n].stmts))
+    consts = re.findall(r"const [^\n]*read_data_pdu::promoted\[\d+\]: &PDUType = \{.*?\n\}", text, re.S)
+    const_ok = False
+    # find which promoted is used by the statements feeding this call
+    feed = " ".join(f.blocks[c].stmts)
+    pm = re.search(r"read_data_pdu::promoted\[(\d+)\]", feed)
+    if pm:
+        for body in consts:
+            if "promoted[%s]" % pm.group(1) in body.split("\n")[0]:
+                const_ok = "PDUType::PdutypeDeactivateallpdu" in body
+    pol = (callee.endswith("::eq") and lab != "0") or (callee.endswith("::ne") and lab == "0")
+    obs.append({"id": "read_data_pdu:deactivate-all-only", "ok": const_ok and pol, "functions": [f.name],
+                "detail": "state returns to DemandActivePDU only on the edge where pdu_type == PdutypeDeactivateallpdu" if (const_ok and pol) else
+                "guard is %s on label %s, compared constant recognised=%s" % (callee.split("::")[-1], lab, const_ok), "where": f.name})
+    return obs
+
+
+def input_gating(ctx, mir, stats):
+    obs = []
+    f = find_fn(mir, r"^global::<impl at src/core/global\.rs[^>]*>::write_input_event$")
+    se = SymExec(f, stats).run()
+    data_label = None
+    for p in se.finished:
+        first = next((ev for ev in p.events if ev[0] == "branch"), None)
+        sends = calls_on(p.events, r"write_data_pdu|write_pdu|mcs::Client::<S>::write")
+        ret = _last_assign_to_ret(p) or ""
+        if sends:
+            data_label = first[2] if first else None
+        else:
+            err = any(ev[0] == "assign" and "RdpErrorKind::InvalidAutomata" in ev[3] for ev in p.events) and re.search(r"Err\(", ret)
+            emit = calls_on(p.events, r"ts_input_pdu_data|to_vec|ts_input_event")
+            obs.append({"id": "write_input_event:refused[%s]" % (first[2] if first else "?"), "ok": bool(err) and not emit, "functions": [f.name],
+                        "detail": "outside the sending state: Err(InvalidAutomata), no PDU built, nothing written" if (err and not emit) else "non-sending arm returns `%s`, builds %s" % (ret[:60], [e[2] for k, e in emit]), "where": f.name})
+    labels = ctx.get("c12_state_labels")
+    sw = f.blocks[f.order[0]]
+    n_send_arms = len({next((ev[2] for ev in p.events if ev[0] == "branch"), None) for p in se.finished if calls_on(p.events, r"write_data_pdu")})
+    ok = data_label is not None and n_send_arms == 1
+    if labels:
+        dl = [l for l, ks in labels.items() if "data" in ks]
+        ok = ok and dl == [data_label]
+    obs.append({"id": "write_input_event:only-data-state-sends", "ok": ok, "functions": [f.name],
+                "detail": "input is sent in exactly one state arm (label %s), the same discriminant as global::Client::read's Data arm" % data_label if ok else "sending arms: %s (data label %s)" % (n_send_arms, data_label), "where": f.name})
+    # RdpClient::write: Bitmap events are refused before any emitter; pointer/key go through write_input_event only
+    g = find_fn(mir, r"^client::<impl at src/core/client\.rs[^>]*>::write$")
+    sg = SymExec(g, stats).run()
+    kinds = {}
+    for p in sg.finished:
+        first = next((ev for ev in p.events if ev[0] == "branch"), None)
+        wie = calls_on(p.events, r"write_input_event")
+        other = calls_on(p.events, r"mcs::Client::<S>::write|write_data_pdu|x224::Client")
+        kinds.setdefault(first[2] if first else "?", []).append((len(wie), len(other), _last_assign_to_ret(p) or ""))
+    for lab, lst in sorted(kinds.items()):
+        sends = {x[0] for x in lst}
+        direct = {x[1] for x in lst}
+        if sends == {0}:
+            ok = direct == {0} and all(re.search(r"Err\(", x[2]) for x in lst)
+            obs.append({"id": "RdpClient::write[event kind %s]:refused" % lab, "ok": ok, "functions": [g.name],
+                        "detail": "an event kind that cannot be sent returns Err and calls no emitter" if ok else "unsendable event kind: %s" % lst, "where": g.name})
+        else:
+            ok = sends == {1} and direct == {0}
+            obs.append({"id": "RdpClient::write[event kind %s]:one-input-pdu" % lab, "ok": ok, "functions": [g.name],
+                        "detail": "each pointer/key event leads to exactly one write_input_event call and no other write" if ok else "event kind emits %s" % lst, "where": g.name})
+    h = find_fn(mir, r"^client::<impl at src/core/client\.rs[^>]*>::try_write$")
+    sh = SymExec(h, stats).run()
+    okp = False
+    for p in sh.finished:
+        if any(ev[0] == "branch" for ev in p.events) and re.search(r"Ok\(", _last_assign_to_ret(p) or ""):
+            okp = True
+    w = call_blocks(h, r"::write$")
+    obs.append({"id": "RdpClient::try_write:delegates", "ok": len(w) == 1 and okp, "functions": [h.name],
+                "detail": "try_write makes exactly one write call and maps a refusal to Ok (lenient drop); it writes nothing itself" if (len(w) == 1 and okp) else "try_write shape changed", "where": h.name})
+    return obs
+
+
+def mode_flags(ctx, mir, stats):
+    obs = []
+    # x224 connect: request flag byte
+    f = find_fn(mir, r"^x224::<impl at src/core/x224\.rs[^>]*>::connect$")
+    se = SymExec(f, stats).run()
+    restricted = [v for nm, (v, ty) in se.inputs.items() if nm.startswith("arg_5#")]
+    blank = [v for nm, (v, ty) in se.inputs.items() if nm.startswith("arg_6#")]
+    n = 0
+    for p in se.finished + [a[0] for a in se.asserts]:
+        wc = calls_on(p.events, r"write_connection_request$")
+        if not wc:
+            continue
+        i, ev = wc[0]
+        src = resolve_source(p.events, i, ev[4][2])
+        m = re.match(r"Option::<u8>::Some\((?:move|copy) (_\d+)\)$", src)
+        if not m or not restricted:
+            raise Inconclusive("ENCODING-FAILED: request mode argument not recognised: %s" % src)
+        val = None
+        for e2 in p.events[:i]:
+            if e2[0] == "assign" and e2[2].strip() == m.group(1):
+                val = e2[4] if e2[4] is not None else val
+                if e2[4] is None:
+                    # moved from another local
+                    mm = re.match(r"(?:move|copy) (_\d+)$", e2[3])
+                    if mm:
+                        for e3 in p.events[:i]:
+                            if e3[0] == "assign" and e3[2].strip() == mm.group(1) and e3[4] is not None:
+                                val = e3[4]
+        if val is None:
+            val = p.env.get(m.group(1))
+        if val is None:
+            raise Inconclusive("ENCODING-FAILED: request mode value not encodable")
+        n += 1
+        verdict, mdl, smt = se.check(p, [z3.Not(z3.And((val == 1) == (restricted[0] == 1), z3.Or(val == 0, val == 1)))], "request flag")
+        obs.append({"id": "x224::connect:request-flag", "ok": verdict == "unsat", "functions": [f.name],
+                    "detail": "the negotiation request announces restricted admin mode (flag 1) exactly when the mode is set, 0 otherwise" if verdict == "unsat" else "request flag wrong for %s" % mdl, "where": f.name})
+        # start_nla's last argument = restricted || blank
+        for j, e in calls_on(p.events, r"start_nla$"):
+            a = e[3][3]
+            if a is None:
+                srcn = resolve_source(p.events, j, e[4][3])
+                a = p.env.get(re.sub(r"^(move|copy) ", "", e[4][3]).strip())
+            if a is None or not blank:
+                obs.append({"id": "x224::connect:nla-empty-creds-arg", "ok": False, "functions": [f.name], "detail": "start_nla's empty-credentials argument not encodable"})
+            else:
+                v2, m2, s2 = se.check(p, [(a == 1) != z3.Or(restricted[0] == 1, blank[0] == 1)], "nla arg")
+                obs.append({"id": "x224::connect:nla-empty-creds-arg", "ok": v2 == "unsat", "functions": [f.name],
+                            "detail": "CredSSP credentials are emptied exactly when restricted_admin_mode || blank_creds" if v2 == "unsat" else "start_nla argument wrong for %s" % m2, "where": f.name})
+    if n == 0:
+        raise Inconclusive("ENCODING-FAILED: write_connection_request call not found on any path")
+    # rdp_infos: autologon bit
+    g = find_fn(mir, r"^rdp_infos$")
+    sg = SymExec(g, stats, loop_bound=0, max_paths=5000).run()
+    auto = [v for nm, (v, ty) in sg.inputs.items() if nm.startswith("arg_5#")]
+    k = 0
+    for p in sg.finished + [a[0] for a in sg.asserts]:
+        les = [ev for ev in p.events if ev[0] == "assign" and ev[3].startswith("Value::<u32>::LE(")]
+        if len(les) < 2:
+            continue
+        flag_op = les[1][3][len("Value::<u32>::LE("):-1]
+        e = sg.operand(p, flag_op)
+        if e is None or not auto:
+            continue
+        k += 1
+        verdict, mdl, smt = sg.check(p, [((e & 8) != 0) != (auto[0] == 1)], "autologon")
+        cvc5_check(smt, verdict, stats)
+        obs.append({"id": "rdp_infos:autologon-bit", "ok": verdict == "unsat", "functions": [g.name],
+                    "detail": "INFO_AUTOLOGON (0x8) is set in the Client Info flags exactly when auto_logon is requested" if verdict == "unsat" else "auto-logon bit wrong: %s" % mdl, "where": g.name})
+        break
+    if k == 0:
+        raise Inconclusive("ENCODING-FAILED: rdp_infos flag word not found")
+    return obs
